@@ -161,12 +161,14 @@ PROPS["C06"] = dict(
             dict(harness="VerifHarness_C06_quick", reach=["validates", "rejected"]),
             dict(harness="VerifHarness_C06_ignore", reach=["validates", "rejected"]),
             dict(harness="VerifHarness_C06_shift", reach=["validates", "rejected"]),
+            dict(harness="VerifHarness_C06_names3", reach=["validates"]),
             dict(harness="VerifHarness_C06_ignore_witness", role="witness", key="C06-ignored-files"),
         ],
         "thorough": [
             dict(harness="VerifHarness_C06_thorough", reach=["validates", "rejected"]),
             dict(harness="VerifHarness_C06_ignore3", reach=["validates", "rejected"]),
             dict(harness="VerifHarness_C06_shift", reach=["validates", "rejected"]),
+            dict(harness="VerifHarness_C06_names4", reach=["validates"]),
             dict(harness="VerifHarness_C06_ignore_witness", role="witness", key="C06-ignored-files"),
         ],
     },
@@ -175,7 +177,8 @@ PROPS["C06"] = dict(
                  "symbolic one-letter names (sorted, distinct) and 4 symbolic content bytes each; sum-ignore family: 0..2 files, each optionally "
                  "starting with the concrete '-- atlas:sum ignore' line followed by 1 symbolic byte; boundary-shift family: 3 files in both "
                  "directories, the first two with symbolic contents of length 0, 1, 5 or 6 chosen independently (so a content can spell a file name "
-                 "and the name/content boundaries of the hashed byte stream can move), the third of 1 byte",
+                 "and the name/content boundaries of the hashed byte stream can move), the third of 1 byte; names family: an untouched two-file directory whose "
+                 "first file name is 1..3 fully symbolic bytes (no line break, path separator or NUL) before .sql",
         "thorough": "0..4 files x 6 symbolic content bytes (the longest content that cannot itself spell an atlas: directive); sum-ignore family "
                     "0..3 files x 2 bytes; unsat answers cross-checked",
     },
